@@ -225,8 +225,8 @@ Definition run_1404 (input impl : sx) : sx :=
   end.
 
 (* ---- kind 1405: the real Copy under strace: the flavours of its metadata calls ----
-   impl = (output-of-1404 ((call nofollow path) ...)).  The 1404 verdict is kept when it is not OK;
-   otherwise: chown / utimes / setxattr calls must be no-follow, a following chmod must name
+   impl = (output-of-1404 ((call nofollow path) ...)).  A call of the wrong flavour is a specification failure; otherwise the verdict
+   is that of kind 1404 on the same run.  chown / utimes / setxattr calls must be no-follow, a following chmod must name
    something that is not a symlink in the after-snapshot (theorem metadata_calls_nofollow). *)
 Definition s_chmod : bytes := [99; 104; 109; 111; 100].
 Fixpoint snap_is_link (snap : list sx) (p : bytes) : bool :=
@@ -252,9 +252,7 @@ Definition run_1405 (input impl : sx) : sx :=
   match impl with
   | SL [SL [r0; sb; ms; err; SL sa; di; pt]; SL evs] =>
     let o4 := SL [r0; sb; ms; err; SL sa; di; pt] in
-    let v := run_1404 input o4 in
-    if sx_eqb v v_ok then
-      verdict impl impl (forallb (ev_ok sa) evs) (SL (filter (fun e => negb (ev_ok sa e)) evs))
-    else v
+    if forallb (ev_ok sa) evs then run_1404 input o4
+    else verdict impl impl false (SL (filter (fun e => negb (ev_ok sa e)) evs))
   | _ => v_malformed
   end.
